@@ -307,7 +307,10 @@ pub fn op_flip<K: Kern<D>, const D: usize>(
             FlipArg::K3Inv(a, b, c) => json!({"vs": [tr.vkey_id(tds, *a), tr.vkey_id(tds, *b), tr.vkey_id(tds, *c)]}),
         }
     };
-    let args = json!({"mv": mv, "h": handle, "restores": restores, "note": note});
+    // `back`: how many lines before this one the state to be restored was recorded (relative, so
+    // that a trace cut at case boundaries stays valid)
+    let back = if restores > 0 { tr.line + 1 - restores } else { 0 };
+    let args = json!({"mv": mv, "h": handle, "restores": back, "note": note});
     // abstract ids of all cells before (to name removed cells afterwards)
     let pre_cells: Vec<(CellKey, i64)> = {
         let tds = dt.tds();
